@@ -70,8 +70,8 @@ TOKENS = ["tqa1", "tqb2", "tqa", "zzq"]
 ATTRS = [None, None, "tqa1 first", "note=tqb2;x", "TQA1 upper", "tqa", "üñí tqb2"]
 ARGS = ["seqid", "biotype", "name", "strand", "attributes", "on_alignment", "start", "stop"]
 FAKE = re.compile(r".+-\d+", re.S)
-HOSTILE_FORMS = {"other-key-ending-in-ID"}
-FORM_PRIORITY = ["source", "partial", "single-base", "complement", "join", "wrapped"]
+HOSTILE_FORMS = {"other-key-ending-in-ID", "mixed-strand"}
+FORM_PRIORITY = ["source", "mixed-strand", "partial", "single-base", "complement", "join", "wrapped"]
 
 
 def _cls(name):
@@ -97,22 +97,47 @@ def extent(rec):
     return min(a for a, _ in rec["spans"]), max(b for _, b in rec["spans"])
 
 
-def canon_strand(s):
-    # G: add_feature documents that an unset strand means '+'
-    return "+" if s is None else s
+def no_strand(rec):
+    """a loaded record whose location has segments on both strands has NO strand (None is the value, not 'unset')"""
+    return rec["t"] != "user" and rec["strand"] is None
 
 
 def canon(rec):
-    return (rec["seqid"], rec["biotype"], "*" if rec.get("wild") else rec["name"], canon_strand(rec["strand"]), tuple(tuple(s) for s in rec["spans"]))
+    # G: add_feature documents that an unset strand means '+' -> for user records None and '+' are one class
+    strand = rec["strand"] if rec["strand"] is not None or no_strand(rec) else "+"
+    return (rec["seqid"], rec["biotype"], "*" if rec.get("wild") else rec["name"], strand, tuple(tuple(s) for s in rec["spans"]))
 
 
 def canon_got(r, any_wild):
+    """canonical form of a returned record; the strand is kept exactly as returned (see canon_got_all)"""
     name = r["name"]
     if any_wild and isinstance(name, str) and FAKE.fullmatch(name):
         name = "*"  # G: invented names of unnamed records are unspecified
     spans = r["spans"]
     spans = tuple(tuple(int(x) for x in s) for s in (spans.tolist() if hasattr(spans, "tolist") else spans))
-    return (r["seqid"], r["biotype"], name, canon_strand(r["strand"]), spans)
+    return (r["seqid"], r["biotype"], name, r["strand"], spans)
+
+
+def canon_got_all(rows, model, any_wild):
+    """multiset of returned records. A returned strand of None is kept for as many records as the model has
+    strand-less (mixed-strand) records with the same other fields; any further None is a user record whose strand
+    was never set and counts as '+' (G above)."""
+    allow = collections.Counter()
+    for m in model:
+        if no_strand(m):
+            k = canon(m)
+            allow[k[:3] + k[4:]] += 1
+    out = collections.Counter()
+    for r in rows:
+        k = canon_got(r, any_wild)
+        if k[3] is None:
+            k4 = k[:3] + k[4:]
+            if allow[k4] > 0:
+                allow[k4] -= 1
+            else:
+                k = k[:3] + ("+",) + k[4:]
+        out[k] += 1
+    return out
 
 
 def _like_variants(text, pattern):
@@ -140,7 +165,11 @@ def match_value(key, rec, v):
             return False
         return None if "%" in v else False
     if key == "strand" and rv is None:
+        if no_strand(rec):
+            return False  # segments on both strands: selected for neither strand, whatever the form of the condition
         vs = v if isinstance(v, list) else [v]
+        if any(isinstance(x, str) and "%" in x for x in vs):
+            return None
         return None if "+" in vs else False
     if isinstance(v, list):
         return rv in v
@@ -438,7 +467,36 @@ def render_location(rng, spans, strand, p5, p3):
     op = rng.choice(["join", "join", "order"]) if multi else None
     if multi:
         forms.add("join")
-    if strand == "-":
+    if strand is None:
+        # trans-spliced: segments on both strands. complement() on the first / last / middle segment(s), at least one
+        # with and one without; segments listed in ascending, descending or arbitrary order
+        assert multi
+        n = len(segs)
+        where = rng.choice(["complement-first", "complement-last"] + (["complement-middle"] if n > 2 else []))
+        if where == "complement-first":
+            flags = [True] + [rng.random() < 0.5 for _ in range(n - 1)]
+            if all(flags):
+                flags[rng.randrange(1, n)] = False
+        elif where == "complement-last":
+            flags = [False] + [rng.random() < 0.5 for _ in range(n - 2)] + [True]
+        else:
+            flags = [False] + [True] * (n - 2) + [False]
+        forms.add("mixed-strand")
+        forms.add("mixed:" + where)
+        parts = [f"complement({t})" if f else t for t, f in zip(segs, flags)]
+        order = rng.choice(["ascending", "descending", "shuffled"])
+        if order == "descending":
+            parts.reverse()
+        elif order == "shuffled":
+            rng.shuffle(parts)
+        forms.add("mixed:listed-" + order)
+        if rng.random() < 0.12:
+            # an outer complement flips every segment: still both strands
+            forms.add("mixed:outer-complement")
+            loc_parts = ["complement(" + op + "("] + [p + ("," if i < n - 1 else "))") for i, p in enumerate(parts)]
+        else:
+            loc_parts = [op + "("] + [p + ("," if i < n - 1 else ")") for i, p in enumerate(parts)]
+    elif strand == "-":
         forms.add("complement")
         if multi and rng.random() < 0.4:
             parts = [f"complement({t})" for t in reversed(segs)]
@@ -479,6 +537,8 @@ def gen_gb(rng, locus, nfeat, hi):
         biotype = rng.choice(BIOTYPES + ["misc_feature"])
         strand = rng.choice(["+", "-"])
         spans = gen_spans(rng, hi)
+        if len(spans) > 1 and rng.random() < 0.3:
+            strand = None  # segments on both strands
         p5, p3 = rng.random() < 0.2, rng.random() < 0.2
         loc_lines, forms = render_location(rng, spans, strand, p5, p3)
         lines.append("     " + biotype.ljust(16) + loc_lines[0])
@@ -722,6 +782,22 @@ def gen_directed(rng, which):
             for k in ("lines_per_block", "seqids", "splits_a_record", "layout"):
                 st.pop(k, None)
             out.append({"cls": "Basic", "source": "file", "steps": [feats(rng.randint(1, 3)), st, {"op": rng.choice(PERSIST)}]})
+    elif which == "gb-mixed":
+        # trans-spliced locations: every placement of complement() and every listing order, through every load route
+        want = {"mixed:complement-first", "mixed:complement-last", "mixed:complement-middle", "mixed:listed-ascending", "mixed:listed-descending", "mixed:listed-shuffled"}
+        vias = ["load_annotations", "parser-data", "parser-add_records"]
+        for _ in range(2000):
+            st = gen_load_step(rng, "Genbank", seqids, max(hi, 16), "quick", "d")
+            have = {f for r in st["recs"] for f in (r.get("form") or []) if f.startswith("mixed:")}
+            if not (have & want) and not (vias and have):
+                continue
+            want -= have
+            st["via"] = vias.pop() if vias else st["via"]
+            if st["via"] != "load_annotations":
+                st.pop("layout", None)
+            out.append({"cls": rng.choice(["Genbank", "Genbank", "Basic"]), "source": "memory", "steps": [feats(rng.randint(0, 2)), st, {"op": rng.choice(PERSIST)}]})
+            if not want and not vias:
+                break
     elif which == "gb-files":
         for layout in ("glob", "multi-record-file", "one-by-one"):
             while True:
@@ -734,7 +810,7 @@ def gen_directed(rng, which):
     return out
 
 
-DIRECTED = ["empty", "refusals", "unread", "blocks", "gb-files", "file-backed"]
+DIRECTED = ["empty", "refusals", "unread", "blocks", "gb-files", "gb-mixed", "file-backed"]
 
 
 def gen_cases(rng, tier):
@@ -847,7 +923,7 @@ def observe(ctx, db, model, step, light=False):
 
     exp = collections.Counter(canon(r) for r in model)
     rows = guarded("get_records_matching", lambda: [dict(r) for r in db.get_records_matching()])
-    got = collections.Counter(canon_got(r, any_wild) for r in rows)
+    got = canon_got_all(rows, model, any_wild)
     res.evals += 1
     res.count("observe:records")
     d = diff(got, exp, collections.Counter())
@@ -881,7 +957,7 @@ def observe(ctx, db, model, step, light=False):
     if light:
         return
     feats = guarded("get_features_matching", lambda: list(db.get_features_matching()))
-    gotf = collections.Counter(canon_got(r, any_wild) for r in feats)
+    gotf = canon_got_all(feats, model, any_wild)
     res.evals += 1
     res.count("observe:features")
     d = diff(gotf, exp, collections.Counter())
@@ -1198,7 +1274,7 @@ def judge(db, model, fn, q):
         if not (lo <= out <= hi):
             return ("count-too-small" if out < lo else "count-too-large", None, out)
         return None
-    got = collections.Counter(canon_got(r, any_wild) for r in out)
+    got = canon_got_all(out, model, any_wild)
     d = diff(got, must, may)
     if d:
         return (d[0], d[1], sorted(got.elements(), key=repr)[:20])
@@ -1261,6 +1337,8 @@ def check_query(ctx, db, model, q, fns, sweep):
                 replay_case=ctx.replay(query=qmin, fn=fn),
             )
     # coverage bookkeeping
+    if "strand" in q and any(no_strand(r) and match(r, {k: v for k, v in q.items() if k != "strand"}) is not False for r in model):
+        res.count("query:strand-vs-strandless-record")
     res.count("sweep:" + sweep)
     if wk:
         res.count("window:" + wk)
@@ -1475,7 +1553,7 @@ def run_case(case):
                 res.sample({"cls": hist["cls"], "steps": [_brief(s) for s in hist["steps"]]})
     elif kind == "directed":
         for hist in gen_directed(rng, case["which"]):
-            run_history(res, hist, rng, tier, final_sweep=case["which"] in ("blocks", "gb-files"))
+            run_history(res, hist, rng, tier, final_sweep=case["which"] in ("blocks", "gb-files", "gb-mixed"))
     elif kind == "texts":
         # flat-file text -> db, every load route, full query sweep on the loaded db
         cls = {"gff": "Gff", "gb": "Genbank"}[case["fmt"]]
@@ -1588,6 +1666,14 @@ def required(counters, tier):
         "gb:complement",
         "gb:partial",
         "gb:single-base",
+        "gb:mixed-strand",
+        "gb:mixed:complement-first",
+        "gb:mixed:complement-last",
+        "gb:mixed:complement-middle",
+        "gb:mixed:listed-ascending",
+        "gb:mixed:listed-descending",
+        "gb:mixed:listed-shuffled",
+        "query:strand-vs-strandless-record",
         "gb:wrapped",
         "gb:glob",
         "query:get_records_matching",
